@@ -296,7 +296,7 @@ func execAny(c proto.Case, o *proto.Out) []string {
 	cacheMu.Unlock()
 	if isGlueCase(c) {
 		if !ok {
-			outs = getGlue().exec(c.Ops)
+			outs = glueExec(c.Ops)
 		}
 		classifyGlue(c, outs, o)
 		return outs
